@@ -4,6 +4,7 @@
 -/
 import FtProofs.Lemmas.TraceMachine
 import FtProofs.Lemmas.TraceNest
+import FtProofs.Lemmas.TraceKernel
 namespace Ft
 open Ft.C16
 
@@ -99,5 +100,68 @@ example :
     wn ("K", "iter") true 1 2 n = true ∧
     (rowsOf (fun _ => true) 2 n ("K", "iter")).map (·.stamp) = [[0, 0], [0, 1], [1, 0], [1, 1]] := by
   decide
+
+/-! ### loop nests over operand trees: what the iterators emit is well-nested -/
+
+/-- For every loop nest (any depth; per level a source fiber / `a & b` / leader-follower / projection,
+    optionally under `z <<`, inserting and move phase included), all operand trees, every set of
+    declared traces: the calls the iterators make are well-nested for every key of the `i`-th
+    level, provided no other level writes traces under the same rank name. -/
+theorem trace_kernel_wellnested (tr : Key → Bool) (dflt : Int) (levels : List Level) (env : Env)
+    (i : Nat) (lv : Level) (k : Key) (hi : levels[i]? = some lv) (hk : k.1 ∈ levelNames lv)
+    (hd : ∀ (j : Nat) (lv' : Level), levels[j]? = some lv' → j ≠ i → k.1 ∉ levelNames lv') :
+    wn k (k.2 == "iter") i levels.length (interp tr dflt levels.length levels env).2 = true :=
+  interp_wn tr dflt k levels i lv env hi hk hd
+
+/-- Hence the rows of every trace of such a nest carry lexicographically non-decreasing iteration
+    stamps, strictly increasing ones for `iter` traces — source-side and destination-side traces of
+    a populate alike (the "stamp-ordered" half of the relaxed clause for inserting populates). -/
+theorem trace_kernel_stamps_sorted (tr : Key → Bool) (dflt : Int) (levels : List Level) (env : Env)
+    (i : Nat) (lv : Level) (k : Key) (hi : levels[i]? = some lv) (hk : k.1 ∈ levelNames lv)
+    (hd : ∀ (j : Nat) (lv' : Level), levels[j]? = some lv' → j ≠ i → k.1 ∉ levelNames lv') :
+    ((rowsOf tr levels.length (interp tr dflt levels.length levels env).2 k).map (·.stamp)).Pairwise
+        (fun a b => lexLe a b = true) ∧
+    (k.2 = "iter" →
+      ((rowsOf tr levels.length (interp tr dflt levels.length levels env).2 k).map (·.stamp)).Pairwise
+        (fun a b => lexLt a b = true)) := by
+  have h := trace_kernel_wellnested tr dflt levels env i lv k hi hk hd
+  by_cases hit : k.2 = "iter"
+  · have hb : (k.2 == "iter") = true := by simpa using hit
+    rw [hb] at h
+    have hs := (trace_iter_stamps_strict tr k i _ _ h).1
+    exact ⟨hs.imp (fun hab => lexLe_of_lexLt _ _ hab), fun _ => hs⟩
+  · have hb : (k.2 == "iter") = false := by simpa using hit
+    rw [hb] at h
+    exact ⟨(trace_stamps_sorted tr k i _ _ h).1, fun e => absurd e hit⟩
+
+namespace C16
+/-- Gustavson: `for m,(z_n,a_k) in z_m << a_m: for k,(a,b_n) in a_k & b_k: for n,(z,b) in z_n << b_n: z += a*b` -/
+def exLevels : List Level :=
+  [{ rank := "M", src := .fiber 0, pop := true, insertPos := 9 },
+   { rank := "K", src := .and 0 1, pop := false },
+   { rank := "N", src := .fiber 1, pop := true, insertPos := 9 }]
+def exA : Tree Int Int 2 := (show List (Int × List (Int × Int)) from [(0, [(0, 1), (2, 2)]), (2, [(1, 3), (2, 4), (3, 5)])])
+def exB : Tree Int Int 2 := (show List (Int × List (Int × Int)) from [(0, [(0, 1), (1, 2)]), (2, [(1, 3)]), (3, [(0, 4), (2, 5)])])
+def exEnv : Env := { ops := [⟨2, exA⟩, ⟨2, exB⟩], z := ⟨2, ([] : List (Int × Tree Int Int 1))⟩ }
+end C16
+
+-- non-vacuity: the destination-side write trace of the innermost populate of Gustavson's nest, which
+-- goes through the inserting mode and the move phase (staging positions 9, 10 beyond the shape)
+example := trace_kernel_stamps_sorted (fun _ => true) 0 C16.exLevels C16.exEnv 2
+  { rank := "N", src := .fiber 1, pop := true, insertPos := 9 } ("N", "populate_write_0") rfl
+  (by simp [levelNames])
+  (by
+    intro j lv' hj hne
+    rcases j with _ | _ | _ | j
+    · simp [C16.exLevels] at hj; subst hj; simp [levelNames]
+    · simp [C16.exLevels] at hj; subst hj; simp [levelNames]
+    · exact absurd rfl hne
+    · simp [C16.exLevels] at hj)
+
+#guard ((rowsOf (fun _ => true) 3 (interp (fun _ => true) 0 3 C16.exLevels C16.exEnv).2 ("N", "populate_write_0")).map
+    (fun r => (r.stamp, r.pt, r.pos))) ==
+  [([0, 0, 1], [0, 0, 0], 0), ([0, 0, 3], [0, 0, 1], 1), ([0, 1, 1], [0, 2, 1], 1),
+   ([2, 2, 1], [2, 2, 1], 0), ([2, 3, 1], [2, 3, 0], 9), ([2, 3, 4], [2, 3, 2], 10),
+   ([2, 3, 5], [2, 3, 2], 2), ([2, 3, 6], [2, 3, 1], 1), ([2, 3, 7], [2, 3, 0], 0)]
 
 end Ft
